@@ -5,8 +5,6 @@
 package runner
 
 import (
-	"runtime/pprof"
-	"syscall"
 	"crypto/sha1"
 	"encoding/json"
 	"flag"
@@ -16,9 +14,11 @@ import (
 	"path/filepath"
 	"regexp"
 	"runtime"
+	"runtime/pprof"
 	"sort"
 	"strconv"
 	"strings"
+	"syscall"
 	"time"
 
 	"verif/explore"
@@ -36,8 +36,8 @@ var VerifDir = func() string {
 // Sc is a scenario plus how it is scheduled over workers.
 type Sc struct {
 	explore.Scenario
-	Split   bool // shard inside the scenario (large trees); otherwise whole scenario goes to one worker
-	BudgetS int  // per-scenario wall-clock cap in seconds (0 = tier default); hitting it is reported, never a violation
+	Split     bool // shard inside the scenario (large trees); otherwise whole scenario goes to one worker
+	BudgetS   int  // per-scenario wall-clock cap in seconds (0 = tier default); hitting it is reported, never a violation
 	TableBits uint // log2 of the shared visited table size (0 = 24)
 }
 
